@@ -58,6 +58,13 @@ def histories(draw):
             "epochs": draw(st.integers(8, 20))}
 
 
+MAX_BATCHES = 3000
+
+
+class _Degenerate(Exception):
+    """A population that discards every batch (see run_history)."""
+
+
 def run_history(case):
     """Execute one history; returns list of (key, msg) violations."""
     import torch
@@ -90,6 +97,21 @@ def run_history(case):
                                  "patience": 5, "batch_size": 100},
                 **case["kwargs"])
             prop.initialise()
+            # The population loop has no bound of its own when every draw of
+            # a batch is discarded (truncate_log_q with an unlucky synthetic
+            # training set: `if not len(x): continue`).  Such a degenerate
+            # cell says nothing about the pool; count the batches (no clock)
+            # and give it up.
+            calls = [0]
+            draw_latent = prop.draw_latent_prior
+
+            def counted(n):
+                calls[0] += 1
+                if calls[0] > MAX_BATCHES:
+                    raise _Degenerate()
+                return draw_latent(n)
+
+            prop.draw_latent_prior = counted
             lo = np.array([model.bounds[n][0] for n in model.names])
             hi = np.array([model.bounds[n][1] for n in model.names])
             centre = 0.5 * (lo + hi)
@@ -106,6 +128,7 @@ def run_history(case):
                 data = np.sort(data, order="logL")
                 prop.train(data, plot=False)
                 for _ in range(stp["populations"]):
+                    calls[0] = 0
                     # max_samples: documented argument of populate (cap on
                     # the proposals of the accumulate-weights loop); a small
                     # value keeps degenerate cells fast
@@ -136,6 +159,10 @@ def shard(seed, n):
     def body(case):
         try:
             viols, counters = run_history(case)
+        except _Degenerate:
+            out.stats.inconclusive += 1
+            out.stats.classes["direct:degenerate-population"] += 1
+            return
         except Exception as e:  # noqa: BLE001
             import traceback
 
@@ -178,6 +205,9 @@ def run_cells(ctx):
 def replay_cell(ctx, case):
     logging.getLogger("nessai").setLevel(logging.CRITICAL)
     case = {k: v for k, v in case.items() if k != "kind"}
-    viols, _ = run_history(case)
+    try:
+        viols, _ = run_history(case)
+    except _Degenerate:
+        return []
     return [Violation(k, m, dict(case, kind="direct-history"))
             for k, m in viols]
